@@ -353,6 +353,36 @@ def r4_required_reaches_graph(chk: Check):
 
 def r5_submit_validates_first(chk: Check):
     c14.r3_submit_order(chk)
+    # fail fast: a validation error is never swallowed -- every handler around a validation call re-raises on all its paths
+    tree = chk.tree
+    n = 0
+    for key in ("core.objects:ConfigInformation.validate", "core.objects:ConfigInformation.submit", "core.objects:ConfigInformation.validate_and_seal"):
+        f = tree.funcs.get(key)
+        if f is None:
+            continue
+        for t in ast.walk(f.node):
+            if not isinstance(t, ast.Try):
+                continue
+            guarded = [c for b in t.body for c in ast.walk(b) if isinstance(c, ast.Call) and tail(c) in ("validate", "__validate__")]
+            if not guarded:
+                continue
+            for h in t.handlers:
+                if isinstance(h.type, ast.Name) and h.type.id.startswith("__InlineReturn"):
+                    continue
+                n += 1
+                # the handler's last statement on every path is a raise
+                def ends_raising(stmts):
+                    if not stmts:
+                        return False
+                    last = stmts[-1]
+                    if isinstance(last, ast.Raise):
+                        return True
+                    if isinstance(last, ast.If):
+                        return ends_raising(last.body) and ends_raising(last.orelse)
+                    return False
+                chk.require(ends_raising(h.body), chk.fkey(f, "validation errors propagate"), f"an `except {src(h.type) if h.type else ''}` around `{src(guarded[0])}` in `{f.qual}` does not re-raise: "
+                            "an invalid configuration would be accepted and scheduled instead of being rejected by submit()", chk.loc(f.module, h))
+    chk.min_instances(n, 2, "exception handlers around validation calls")
 
 
 def r6_type_resolution(chk: Check):
